@@ -27,21 +27,37 @@ TECHNIQUE = ('runtime post-condition monitors on Signal.butter_pass / remove_pol
              'least-squares oracle and window-mean oracle; trace relations (additivity, idempotence, invariance) '
              'checked offline over the recorded executions')
 RULE = ('cases: (1) sinusoids amp*sin(2 pi f t+phi), f = edge x {0.1,0.3,0.5,0.8,1,1.25,2,4,10}, stratified over '
-        'filter type x remove_gibbs x order 1..4, dt in {0.001..0.02}, cut-offs as tuple/list/ndarray, record >= 60 '
-        'periods of the lowest cut-off (non-trivial = |H|^2 >= 1e-4, i.e. an output that is not ~0); pinned '
-        'low-normalised-edge designs (dt=0.001,(0.5,10),order 4 ...); sequences of 2..4 calls on different sinusoids that '
-        'reuse ONE cut-off container object (float64 ndarray, int ndarray, list, tuple), each call judged against the '
-        'requested cut-offs, and the container compared bit-for-bit before/after every call. (2) additivity/homogeneity on two independently '
-        'drawn random records (different classes, 30..5000 samples) per type x gibbs (non-trivial = both non-constant). '
-        '(3) detrending degree k=0..4 on records of 8..2000 samples whose last sample lies >= 2.5 standard deviations '
-        '(n <= 10: 80 % of the attainable (n-1)/sqrt(n)) from the mean (end spike, walk, ramp, step), method and array '
-        'function, int and float. (4) add_constant/series/signal '
-        'valid and mismatched. (5) running average widths 1..25 on records of 1..200 samples, float and int. '
+        'filter type x remove_gibbs x order 1..4, base dt in {0.001..0.02} times a time scale (nice and arbitrary) so that '
+        'dt spans 1e-9..1e3 with the cut-offs scaled along, amp in {1e-12,0.01,1,250,1e12}, float64/float32 records in '
+        'array/list/tuple/strided/reversed/read-only form, cut-offs as tuple/list/ndarray passed positionally, by keyword '
+        'or omitted (default), gibbs_extra 0/2, gibbs_range 1/7/200, record >= 60 periods of the lowest cut-off '
+        '(non-trivial = |H|^2 >= 1e-4); pinned low-normalised-edge designs (dt=0.001,(0.5,10),order 4 ...); sequences '
+        'of 2..4 calls on different sinusoids that reuse ONE cut-off container object (float64 ndarray, int ndarray, '
+        'list, tuple), each call judged against the requested cut-offs, container compared bit-for-bit before/after '
+        'every call. (2) additivity/homogeneity over the whole record on two independently drawn records of one dtype '
+        '(float64 incl. amplitudes 1e-12/1e12 with scale factors 1e-20..1e12 and offsets 1e6; float32 dyadic; '
+        'int64/32/16/8, uint8/16 using half the dtype range so that x+y is representable) per type x gibbs, lengths '
+        '3(2N+1)+1 (minimal), around powers of two, a few past 2**16, dt 1e-9..1e3, every container form, gibbs_extra '
+        '0..3, gibbs_range 1..4n, plateaus at the ends / extreme at the first or last sample. (3) detrending degree '
+        'k=0..4 (positional, keyword, omitted) on records of k+1..2000 samples whose last sample lies >= 2.5 standard '
+        'deviations (short n: 80 % of the attainable (n-1)/sqrt(n)) from the mean (end spike / dtype extreme, walk, '
+        'ramp, step), all dtypes and container forms, the same argument object twice, method and array function. '
+        '(4) add_constant/series/signal valid and mismatched, all dtype pairs with values over the full dtype range '
+        '(sums leave the dtype), int constants that do not fit the dtype, own buffer / own object as argument, one '
+        'argument object for two signals, positional and keyword. (5) running average widths 1..25 (int, numpy int, '
+        'integral float, default) on records of 1..200 samples INCLUDING records shorter than the window, all dtypes '
+        'and forms. (6) histories of 5..10 calls on one object (filters, detrends, adds, averages, resets to other '
+        'lengths, reads of cached quantities) each compared with the same call on a fresh object. (7) two records of one '
+        'shape back to back with the first result, a twin object and the caller arrays re-checked afterwards. '
         'distinct = digest of the complete parameter set of the case.')
-ASSUMPTIONS = ['finite real records', 'cut-offs 0 < lo < hi < 0.8 Nyquist, band edges at least a factor 2 apart for the '
-               'gain clause (narrower bands ring longer than the 15 periods of margin)',
-               'records longer than the filtfilt edge padding (3*(2N+1) samples); shorter ones are counted, not judged',
+ASSUMPTIONS = ['finite real records; integer records of any width are in domain (the library must not compute in them)',
+               'cut-offs 0 < lo < hi < 0.8 Nyquist, band edges at least a factor 2 apart for the gain clause (narrower '
+               'bands ring longer than the 15 periods of margin)',
+               'records longer than the filtfilt edge padding (3*(2N+1) samples band, 3*(N+1) low/high); shorter ones, '
+               'object-dtype cut-off arrays holding None and the undocumented gibbs_range=0 are counted, not judged',
+               'a float32 record may carry float32 rounding (1e-6 relative) through sums, means and the Gibbs pad value',
                'time-step mismatch is tested with steps that differ by >= 1 % (no knife edge)',
+               'argument purity is not demanded when the caller passes the object itself / its own buffer to an add',
                'oracles vf/oracles/butter.py are correct']
 
 CTX = None
